@@ -141,6 +141,7 @@ def numpy_cases(draw):
     return {"shape": [n_il, n_xl, ns], "headers": hd, "il": list(draw(gen.line_axis(n_il))),
             "xl": list(draw(gen.line_axis(n_xl))), "pass_axes": draw(st.booleans()),
             "axis_dtype": draw(st.sampled_from(["int64", "int32", "float64", "list"])),
+            "dict_used_before": draw(st.integers(0, 3)) == 0,
             "values": draw(gen.values_spec)}
 
 
@@ -188,6 +189,18 @@ def run_numpy(case, ctx):
     truth.setdefault(189, np.repeat(np.array(il, dtype=np.int64), n_xl).reshape(n_il, n_xl))
     truth.setdefault(193, np.tile(np.array(xl, dtype=np.int64), n_il).reshape(n_il, n_xl))
     out = os.path.join(d, "o.sgz")
+    if case.get("dict_used_before"):
+        # the caller's header dict has served another conversion before (a cube of the same shape with other
+        # explicit axes): what that conversion derived must not have been left in the caller's dict
+        keys_before = sorted(hdrs)
+        ekw = {}
+        if 189 not in hdrs:      # (an axis given twice must agree with the header array: only free axes differ)
+            ekw["ilines"] = np.arange(1000, 1000 + n_il)
+        if 193 not in hdrs:
+            ekw["xlines"] = np.arange(500, 500 + 3 * n_xl, 3)
+        conv.numpy_convert(data * np.float32(0.5), os.path.join(d, "earlier.sgz"), 8, (4, 4, -1), trace_headers=hdrs, **ekw)
+        if sorted(hdrs) != keys_before:
+            raise Violation("numpy-header-dict-modified", f"the trace_headers dict passed to NumpyConverter had keys {keys_before}, now {sorted(hdrs)}")
     conv.numpy_convert(data, out, 8, (4, 4, -1), trace_headers=hdrs, **kw)
     with SgzReader(out) as r:
         stored = sorted(int(k) for k in r.stored_header_keys)
